@@ -62,7 +62,10 @@ def reunit(cyc, spec):
         # re-expressed identically: the mating's (in)equality test is not what this property is about
         if vu is None:
             return None
-        key = (kind, vu[0], vu[1])
+        # (keyed by the magnitude: two gears whose modules are the same magnitude written in two ways get one and the same
+        # re-expression — in the same unit the code compares exactly, and two roundings of one magnitude may differ by an ulp)
+        mag = float(F(vu[0]) * SI[kind][vu[1]])
+        key = (kind, float(f'{mag:.11e}'))
         if key not in shared:
             shared[key] = reexpress(cyc, kind, vu, **kw)
         return list(shared[key])
@@ -170,6 +173,11 @@ def eval_meta(ctx, case):
         d = snapshots_differ(ctx, tr1, b1, tr2, b2)
     if d is None:
         return
+    if (tr1['build_error'] is None) != (tr2['build_error'] is None):
+        why = equality_boundary(s1) or equality_boundary(s2)
+        if why:
+            ctx.count('pair excluded: ' + why)
+            return
     if tr1['build_error'] is None and tr2['build_error'] is None:
         why = sim_props.near_threshold(s1, tr1) or sim_props.near_threshold(s2, tr2) or guard_boundary(s1) or rule_boundary(s1, tr1) or rule_boundary(s2, tr2)
         if why:
@@ -210,6 +218,23 @@ def snapshots_differ(ctx, tr1, b1, tr2, b2):
     return None
 
 
+def equality_boundary(spec):
+    """two mated gears carry the same magnitude (module, helix or pressure angle) in the same unit as two doubles one
+    rounding apart: the code's same-unit comparison is exact there, its cross-unit comparison tolerant"""
+    for r in sim.all_rels(spec):
+        if r[0] not in ('gear', 'worm') or min(r[1], r[2]) < 1:
+            continue
+        a, b = spec['elems'][r[1] - 1], spec['elems'][r[2] - 1]
+        for k in ('module', 'helix', 'pa'):
+            x, y = a.get(k), b.get(k)
+            if x and y and x[1] == y[1] and x[0] != y[0] and abs(x[0] - y[0]) <= 1e-9 * max(abs(x[0]), abs(y[0])):
+                return f'{k} of two mated gears equal up to rounding in the same unit'
+            if x and y and len(x) != len(y) and abs(sim.si('Length' if k == 'module' else 'Angle', x[0], x[1]) -
+                                                   sim.si('Length' if k == 'module' else 'Angle', y[0], y[1])) <= 1e-9 * abs(sim.si('Length' if k == 'module' else 'Angle', x[0], x[1])):
+                return f'{k} of two mated gears: one of them converted in place'
+    return None
+
+
 def guard_boundary(spec):
     for op in spec['ops']:
         if op['op'] == 'run':
@@ -222,7 +247,7 @@ def guard_boundary(spec):
 def rule_boundary(spec, tr):
     if not spec.get('rules') or tr.get('build_error') or not tr.get('els'):
         return None
-    for st in ctl_h.states_of(tr):
+    for st in ctl_h.add_time_units(spec, tr, ctl_h.states_of(tr)):
         for rl in spec['rules']:
             o = ctl_h.rule_oracle(rl, st, tr)
             # (only decisions within rounding of a threshold excuse a difference between two unit systems; a state in
